@@ -21,9 +21,11 @@ import (
 )
 
 func compileIfStatement(ctx context.Context[parser.IIfStatementContext]) (diverged bool, err error) {
-	if _, err = expression.Compile(context.Child(ctx, ctx.AST.Expression())); err != nil {
+	condType, err := expression.Compile(context.Child(ctx, ctx.AST.Expression()))
+	if err != nil {
 		return false, errors.Wrap(err, "failed to compile if condition")
 	}
+	emitTruthiness(ctx.Writer, condType)
 
 	var (
 		hasElseClause = ctx.AST.ElseClause() != nil
@@ -47,10 +49,11 @@ func compileIfStatement(ctx context.Context[parser.IIfStatementContext]) (diverg
 		elseIfCtx := innerCtx
 		for i, elseIfClause := range ctx.AST.AllElseIfClause() {
 			ctx.Writer.WriteElse()
-			_, err := expression.Compile(context.Child(elseIfCtx, elseIfClause.Expression()))
+			elseIfType, err := expression.Compile(context.Child(elseIfCtx, elseIfClause.Expression()))
 			if err != nil {
 				return false, errors.Wrapf(err, "failed to compile else-if[%d] condition", i)
 			}
+			emitTruthiness(ctx.Writer, elseIfType)
 			ctx.Writer.WriteIf(wasm.BlockTypeEmpty)
 			elseIfCtx = elseIfCtx.EnterBlock()
 			elseIfDiverged, err := CompileBlock(context.Child(elseIfCtx, elseIfClause.Block()))
@@ -97,6 +100,22 @@ func compileIfStatement(ctx context.Context[parser.IIfStatementContext]) (diverg
 	}
 	ctx.Writer.WriteEnd()
 	return false, nil
+}
+
+// emitTruthiness turns a condition value of any numeric type into the i32 that WASM `if` /
+// `br_if` expect: non-zero is true. 32-bit integer conditions are already in that form.
+func emitTruthiness(w *wasm.Writer, t types.Type) {
+	switch wasm.ConvertType(t) {
+	case wasm.I64:
+		w.WriteI64Const(0)
+		w.WriteOpcode(wasm.OpI64Ne)
+	case wasm.F32:
+		w.WriteF32Const(0)
+		w.WriteOpcode(wasm.OpF32Ne)
+	case wasm.F64:
+		w.WriteF64Const(0)
+		w.WriteOpcode(wasm.OpF64Ne)
+	}
 }
 
 func compileReturnStatement(ctx context.Context[parser.IReturnStatementContext]) error {
